@@ -1497,7 +1497,10 @@ class LLHRatioAnalysis(
             minimization process of the negative of the log-likelihood ratio
             function.
         """
-        events_list = [data.exp for data in self._data_list]
+        # The trial initialization alters the given events arrays (sorting by
+        # the index field, adding data fields). Hence, it has to operate on
+        # copies of the experimental data of the datasets.
+        events_list = [data.exp.copy() for data in self._data_list]
         self.initialize_trial(events_list)
 
         (log_lambda, fitparam_values, status) = self._llhratio.maximize(
